@@ -11,6 +11,7 @@ def _p():
 SUITE_P = {"toy": dict(SECPARAM=192, ln=384, lm=256, le=258, ls=896),
            "toy2": dict(SECPARAM=192, ln=448, lm=256, le=258, ls=960),
            "micro": dict(SECPARAM=16, ln=40, lm=8, le=10, ls=56),
+           "toy3": dict(SECPARAM=192, ln=384, lm=256, le=264, ls=896),
            "cl1024": dict(SECPARAM=512, ln=1024, lm=256, le=258, ls=1536),
            "cl2048": dict(SECPARAM=1024, ln=2048, lm=256, le=258, ls=2560),
            "cl3072": dict(SECPARAM=1536, ln=3072, lm=256, le=258, ls=3584)}
@@ -211,6 +212,19 @@ class C13:
         stats = {"signatures": 0, "negatives": {}, "disclosures": 0}
         stats["primitive_cases"] = prims_pass(S, tier)
         def cnt(k): stats["negatives"][k] = stats["negatives"].get(k, 0) + 1
+        # toy3: the exponent length le is a multiple of 8 -- sign, verify and the byte / JSON codec of the signature
+        x3 = make_ctx(S, "toy3", 2)
+        if x3 is not None:
+            for _ in range(2 if tier == "quick" else 8):
+                m3 = [rmsg(rng), rmsg(rng)]
+                s3 = sign(S, x3, m3, label="clsign(toy3)")
+                if s3 is None: continue
+                stats["signatures"] += 1
+                if not (2 ** (x3.P["le"] - 1) < s3[0] < 2 ** x3.P["le"]): P.fail(S, "e-shape", "toy3: e is not an le-bit number", [str(s3[0])])
+                S.run([vline(x3, m3, s3)], expect=expect_bool(True), label="verify(sign):toy3")
+                rc3 = S.run(["clsigcodec toy3 %s" % zl(s3)], expect="ok", label="sig-codec(toy3)")[0]
+                if rc3.status == "OK" and ([rc3.z(1), rc3.z(2), rc3.z(3)] != s3 or rc3.toks[4] != "1"):
+                    P.fail(S, "sig-codec", "toy3 (le a multiple of 8): signature changed by its byte / JSON codec", [zl(s3)])
         for suite, fx in suites_for(tier):
             ns = [1, 2, 3, 4, 6] if suite == "toy" else [1, 3]
             reps = (2 if tier == "quick" else 6) if suite == "toy" else 1
@@ -256,6 +270,14 @@ class C13:
                         S.run(["clverify1 %s %s %s %d %s" % (suite, zl(x.pk), zl(x.bases), msgs[0] ^ 1, zl(s1))], expect=expect_bool(False), label="neg1:other-attribute")
                         S.run(["clverify1 %s %s %s %d %s" % (suite, zl(x.pk), zl(x.bases), msgs[0] + s1[0], zl([s1[0], s1[1], s1[2] * x.bases[0] % N]))], expect=expect_bool(False), label="neg1:shift-by-e")
                     # codecs
+                    if stats["signatures"] <= 2:
+                        # components with LEADING ZERO octets (v below 2^(ln - 8), a short s): the byte codec returns what it was given
+                        ln_ = x.P["ln"]
+                        for v_ in (1, 255, 2 ** (ln_ - 16), 2 ** (ln_ - 8) - 1, 2 ** (ln_ - 9) + 12345, sig[2] >> 9, sig[2] >> 17):
+                            for s_ in (sig[1], sig[1] >> 20, 3):
+                                rz = S.run(["clsigcodec %s %s" % (suite, zl([sig[0], s_, v_]))], expect="ok", label="sig-codec(leading zero octets)")[0]
+                                if rz.status == "OK" and ([rz.z(1), rz.z(2), rz.z(3)] != [sig[0], s_, v_] or rz.toks[4] != "1"):
+                                    P.fail(S, "sig-codec", "signature with leading zero octets changed by its byte / JSON codec", [zl([sig[0], s_, v_])])
                     rc = S.run(["clsigcodec %s %s" % (suite, zl(sig))], expect="ok", label="sig-codec")[0]
                     if rc.status == "OK" and ([rc.z(1), rc.z(2), rc.z(3)] != sig or rc.toks[4] != "1"):
                         P.fail(S, "sig-codec", "signature changed by its byte / JSON codec", [zl(sig)])
